@@ -478,7 +478,7 @@ var reg struct {
 type statsH struct{ s *fnServer }
 
 func (h *statsH) TagRPC(ctx context.Context, _ *stats.RPCTagInfo) context.Context { return ctx }
-func (h *statsH) HandleRPC(context.Context, stats.RPCStats)                        {}
+func (h *statsH) HandleRPC(context.Context, stats.RPCStats)                       {}
 func (h *statsH) TagConn(ctx context.Context, _ *stats.ConnTagInfo) context.Context {
 	reg.mu.Lock()
 	defer reg.mu.Unlock()
@@ -509,12 +509,17 @@ var handler func(s *fnServer, api string, conn int64, req *fnv1.RunFunctionReque
 // lastRspSent is the digest of the response message the server handed to gRPC (in the API version it speaks).
 var lastRspSent string
 
+// hmu orders what the server goroutines record with what the driver goroutine reads and sets.
+var hmu sync.Mutex
+
 type v1Impl struct {
 	fnv1.UnimplementedFunctionRunnerServiceServer
 	s *fnServer
 }
 
 func (i *v1Impl) RunFunction(ctx context.Context, req *fnv1.RunFunctionRequest) (*fnv1.RunFunctionResponse, error) {
+	hmu.Lock()
+	defer hmu.Unlock()
 	conn, _ := ctx.Value(connKey{}).(int64)
 	rsp, err := handler(i.s, "v1", conn, req, digest(req))
 	if err == nil {
@@ -529,6 +534,8 @@ type betaImpl struct {
 }
 
 func (i *betaImpl) RunFunction(ctx context.Context, breq *fnv1beta1.RunFunctionRequest) (*fnv1beta1.RunFunctionResponse, error) {
+	hmu.Lock()
+	defer hmu.Unlock()
 	conn, _ := ctx.Value(connKey{}).(int64)
 	got := digest(breq)
 	// the scripted function is written against v1: the harness converts (wire-compatible messages)
@@ -616,18 +623,19 @@ func (r recorder) WithAnnotations(...string) event.Recorder { return r }
 // ---------------------------------------------------------------- family "pipeline"
 
 type world struct {
-	in     input
-	s      *simapi.Server
-	c, uc  *simapi.Client
-	xrUID  types.UID
-	calls  []any
-	rounds map[string]int
-	curFn  string
-	sent   string
-	evs    []recorded
-	res    composite.CompositionResult
-	cerr   error
-	ran    bool
+	in       input
+	s        *simapi.Server
+	c, uc    *simapi.Client
+	xrUID    types.UID
+	calls    []any
+	rounds   map[string]int
+	curFn    string
+	sent     string
+	evs      []recorded
+	branches map[string]int
+	res      composite.CompositionResult
+	cerr     error
+	ran      bool
 }
 
 func unstr(gvk schema.GroupVersionKind, name, namespace string) *unstructured.Unstructured {
@@ -660,6 +668,9 @@ func (w *world) onCall(server, got string, req *fnv1.RunFunctionRequest) *fnv1.R
 	p, m := progOf(req)
 	des, dxr := desSummary(req.GetDesired())
 	rsp := runProgram(req)
+	for _, b := range []string{"prog-" + p.Name, "des-" + p.Des, "ctx-" + p.Ctx, "req-" + p.Req, "res-" + p.Res, "cond-" + p.Cond, "round-" + strconv.Itoa(round)} {
+		w.branches[b]++
+	}
 	w.calls = append(w.calls, map[string]any{
 		"fn": w.curFn, "step": step, "round": round, "prog": p.Name, "input": m,
 		"des": des, "dxr": dxr, "ctx": ctxSummary(req.GetContext()), "extra": extraSummary(req.GetExtraResources()),
@@ -676,7 +687,7 @@ func newWorld(in input) *world {
 	_ = pkgv1.AddToScheme(sch)
 	s := simapi.NewServer(sch)
 	s.Namespaced(schema.GroupKind{Kind: "Secret"}, claimGVK.GroupKind())
-	w := &world{in: in, s: s, rounds: map[string]int{}}
+	w := &world{in: in, s: s, rounds: map[string]int{}, branches: map[string]int{}}
 	w.c = simapi.NewClient(s, "xr")
 	w.uc = w.c.Sibling("xr-uncached")
 
@@ -776,7 +787,9 @@ func (w *world) run(tw *trace.Writer, id string, sum *summary) {
 		}
 		// a shim between the fetching runner and the packaged runner: notes the function name and what was sent
 		inner = composite.FunctionRunnerFn(func(ctx context.Context, name string, req *fnv1.RunFunctionRequest) (*fnv1.RunFunctionResponse, error) {
+			hmu.Lock()
 			w.curFn, w.sent = name, digest(req)
+			hmu.Unlock()
 			cctx, cancel := context.WithTimeout(ctx, 20*time.Second)
 			defer cancel()
 			return pr.RunFunction(cctx, name, req)
@@ -814,6 +827,8 @@ func (w *world) run(tw *trace.Writer, id string, sum *summary) {
 	}
 
 	// ---- project the outcome
+	hmu.Lock()
+	defer hmu.Unlock()
 	out := map[string]any{"calls": w.calls, "ran": w.ran, "err": w.cerr != nil, "recErr": rerr != nil}
 	if w.calls == nil {
 		out["calls"] = []any{}
@@ -905,6 +920,9 @@ func (w *world) run(tw *trace.Writer, id string, sum *summary) {
 	out["xrConds"], out["claimTypes"] = sortBy(xrConds, "type"), strList(claimTypes)
 
 	// anti-vacuity counters
+	for b, n := range w.branches {
+		sum.Branches[b] += n
+	}
 	sum.Hits["calls"] += len(w.calls)
 	for _, c := range w.calls {
 		m := c.(map[string]any)
@@ -928,8 +946,15 @@ func (w *world) run(tw *trace.Writer, id string, sum *summary) {
 		sum.Hits["runs-fatal"]++
 	case strings.Contains(errMsg, "didn't stabilize"):
 		sum.Hits["runs-unstable"]++
-		if len(w.calls) > composite.MaxRequirementsIterations+1 {
-			sum.Hits["runs-unstable-after-results"]++
+		last := w.calls[len(w.calls)-1].(map[string]any)["step"].(int)
+		for _, c := range w.calls {
+			m := c.(map[string]any)
+			r := m["rsp"].(map[string]any)
+			if m["step"].(int) < last && m["round"].(int) == 0 && len(r["results"].([]any))+len(r["conds"].([]any)) > 0 {
+				// observation (not judged): Compose returns no events / conditions at all when a later step fails with an error
+				sum.Hits["runs-unstable-dropping-earlier-steps-results"]++
+				break
+			}
 		}
 	default:
 		sum.Hits["runs-other-error"]++
@@ -976,11 +1001,11 @@ func routeRequest() *fnv1.RunFunctionRequest {
 		Meta: &fnv1.RequestMeta{Tag: "tag-1"},
 		Observed: &fnv1.State{Composite: &fnv1.Resource{Resource: xr, ConnectionDetails: map[string][]byte{"bin": {0, 255, 254, 10}, "txt": []byte("v")}, Ready: fnv1.Ready_READY_FALSE},
 			Resources: map[string]*fnv1.Resource{"a": {Resource: cd, ConnectionDetails: map[string][]byte{"k": []byte("v")}, Ready: fnv1.Ready_READY_TRUE}, "b": {Resource: cd}}},
-		Desired: &fnv1.State{Composite: &fnv1.Resource{Resource: xr}, Resources: map[string]*fnv1.Resource{"a": {Resource: cd, Ready: fnv1.Ready_READY_TRUE}}},
-		Input:   in,
-		Context: cx,
+		Desired:        &fnv1.State{Composite: &fnv1.Resource{Resource: xr}, Resources: map[string]*fnv1.Resource{"a": {Resource: cd, Ready: fnv1.Ready_READY_TRUE}}},
+		Input:          in,
+		Context:        cx,
 		ExtraResources: map[string]*fnv1.Resources{"found": {Items: []*fnv1.Resource{{Resource: cd}, {Resource: xr}}}, "none": {}, "nil": nil},
-		Credentials: map[string]*fnv1.Credentials{"c": {Source: &fnv1.Credentials_CredentialData{CredentialData: &fnv1.CredentialData{Data: map[string][]byte{"key": {1, 2, 3, 0}}}}}},
+		Credentials:    map[string]*fnv1.Credentials{"c": {Source: &fnv1.Credentials_CredentialData{CredentialData: &fnv1.CredentialData{Data: map[string][]byte{"key": {1, 2, 3, 0}}}}}},
 	}
 }
 
@@ -992,9 +1017,9 @@ func routeResponse(req *fnv1.RunFunctionRequest) *fnv1.RunFunctionResponse {
 		Desired: proto.Clone(req.GetObserved()).(*fnv1.State),
 		Results: []*fnv1.Result{{Severity: fnv1.Severity_SEVERITY_WARNING, Message: "w", Reason: &reason, Target: fnv1.Target_TARGET_COMPOSITE_AND_CLAIM.Enum()},
 			{Severity: fnv1.Severity_SEVERITY_NORMAL, Message: "n"}},
-		Context: proto.Clone(req.GetContext()).(*structpb.Struct),
+		Context:      proto.Clone(req.GetContext()).(*structpb.Struct),
 		Requirements: &fnv1.Requirements{ExtraResources: map[string]*fnv1.ResourceSelector{"x": byName("n"), "y": byLabel("g")}},
-		Conditions: []*fnv1.Condition{{Type: "T", Status: fnv1.Status_STATUS_CONDITION_FALSE, Reason: "R", Message: &msg, Target: fnv1.Target_TARGET_COMPOSITE.Enum()}},
+		Conditions:   []*fnv1.Condition{{Type: "T", Status: fnv1.Status_STATUS_CONDITION_FALSE, Reason: "R", Message: &msg, Target: fnv1.Target_TARGET_COMPOSITE.Enum()}},
 	}
 }
 
@@ -1124,6 +1149,7 @@ func runRouting(tw *trace.Writer, id string, in input, desc bool, sum *summary) 
 
 	ops := []any{}
 	for _, op := range in.Ops {
+		sum.Branches["op-"+op]++
 		o := map[string]any{"op": op, "ok": true, "server": "none", "conn": "none", "api": "none", "sent": "none", "got": "none",
 			"rsent": "none", "rgot": "none", "gcn": -1, "err": ""}
 		switch op {
@@ -1131,10 +1157,13 @@ func runRouting(tw *trace.Writer, id string, in input, desc bool, sum *summary) 
 			fn := map[string]string{"runA": "fa", "runB": "fb"}[op]
 			req := routeRequest()
 			o["sent"] = digest(req)
+			hmu.Lock()
 			g = nil
+			hmu.Unlock()
 			ctx, cancel := context.WithTimeout(context.Background(), 20*time.Second)
 			rsp, err := w.pr.RunFunction(ctx, fn, req)
 			cancel()
+			hmu.Lock()
 			o["ok"] = err == nil
 			if err != nil {
 				o["err"] = err.Error()
@@ -1163,13 +1192,16 @@ func runRouting(tw *trace.Writer, id string, in input, desc bool, sum *summary) 
 			} else {
 				sum.Hits["route-call-undelivered"]++
 			}
+			hmu.Unlock()
 			if rsp != nil {
 				o["rgot"] = digest(rsp)
 			}
 		case "moveA":
 			if w.cur != "" {
 				ep := w.other(w.endpointOf(w.cur))
-				s.Mutate(fnRevKey(w.cur), func(u *unstructured.Unstructured) { _ = unstructured.SetNestedField(u.Object, ep, "status", "endpoint") })
+				s.Mutate(fnRevKey(w.cur), func(u *unstructured.Unstructured) {
+					_ = unstructured.SetNestedField(u.Object, ep, "status", "endpoint")
+				})
 			}
 		case "rollA":
 			if w.cur != "" {
@@ -1225,6 +1257,7 @@ type summary struct {
 	Families map[string]int `json:"families"`
 	Events   int            `json:"events"`
 	Hits     map[string]int `json:"hits"`
+	Branches map[string]int `json:"branches"`
 	Errors   []string       `json:"errors"`
 	Samples  []any          `json:"samples"`
 }
@@ -1262,7 +1295,7 @@ func main() {
 	}
 	defer os.RemoveAll(dir)
 
-	sum := &summary{Families: map[string]int{}, Hits: map[string]int{}}
+	sum := &summary{Families: map[string]int{}, Hits: map[string]int{}, Branches: map[string]int{}}
 	for _, raw := range raws {
 		var sc struct {
 			ID    string `json:"id"`
